@@ -35,8 +35,11 @@ def banks(tlset=0, veloffs=None, tls=None):
     return [{"p": 0, "msb": 0, "lsb": 0, "ins": mel}, {"p": 1, "msb": 0, "lsb": 0, "ins": perc}]
 
 
-def init(vm, smod=0, frb=0, tlset=0, veloffs=None, tls=None):
-    return {"o": "init", "vm": vm, "smod": smod, "frb": frb, "lim": 0, "banks": banks(tlset, veloffs, tls)}
+def init(vm, smod=0, frb=0, tlset=0, veloffs=None, tls=None, ports=1):
+    d = {"o": "init", "vm": vm, "smod": smod, "frb": frb, "lim": 0, "banks": banks(tlset, veloffs, tls)}
+    if ports > 1:
+        d["ports"] = ports       # channels 16..31 = second MIDI port (as in a song with FF 09 device names)
+    return d
 
 
 def set_axis(ax, ch, k, x, l=0):
@@ -109,6 +112,27 @@ def sweep_histories(grid, variants=2, per_history=16):
             hist.append({"o": "set", "s": "frb", "v": 1 - frb})
             hist.append(full_sweep("bright", ch, k, down=(h % 2 == 1)))
             out.append(hist)
+    return out
+
+
+# ------------------------------------------------------------------ two MIDI ports
+def port_histories():
+    """A note of the second port is levelled by the controls of ITS channel (16 + c), whatever channel c of the first port
+    holds: sweeps and zero tests on port B while port A's same-numbered channel sits at other values."""
+    out = []
+    for vm in (0, 1, 2, 3, 4, 5):
+        for (a, b) in ((1, 17), (9, 25), (0, 16)):
+            h = [init(vm, 0, 1, tlset=0, ports=2)]
+            key = KEY if b % 16 != 9 else 36
+            h += [{"o": "pc", "ch": a, "p": 4}, {"o": "pc", "ch": b, "p": 4},
+                  {"o": "cc", "ch": a, "n": 7, "v": 40}, {"o": "cc", "ch": a, "n": 11, "v": 30}, {"o": "cc", "ch": a, "n": 74, "v": 20},
+                  {"o": "on", "ch": b, "k": key, "v": 100},
+                  full_sweep("vol", b, key), full_sweep("expr", b, key, down=True), {"o": "cc", "ch": b, "n": 11, "v": 127},
+                  {"o": "cc", "ch": a, "n": 7, "v": 127}, {"o": "cc", "ch": b, "n": 7, "v": 0}, {"o": "cc", "ch": b, "n": 7, "v": 100},
+                  {"o": "cc", "ch": a, "n": 7, "v": 3}, {"o": "cc", "ch": b, "n": 7, "v": 120},
+                  full_sweep("bright", b, key, down=True), {"o": "cc", "ch": a, "n": 74, "v": 127}, full_sweep("bright", b, key),
+                  {"o": "on", "ch": a, "k": key, "v": 90}, full_sweep("vol", a, key), {"o": "off", "ch": a, "k": key}, {"o": "off", "ch": b, "k": key}]
+            out.append(h)
     return out
 
 
